@@ -175,3 +175,9 @@ Definition np_binary_dilation (a : arr bool) (sr sc it : Z) : arr bool :=
             let rr := r - (i - sr / 2) in let cc := c - (j - sc / 2) in
             (0 <=? rr) && (rr <? a_nr a) && (0 <=? cc) && (cc <? a_nc a) && a_at a rr cc)
             (zrange 0 sc)) (zrange 0 sr)).
+
+(* ------------------------------------------------------------------ datasets *)
+
+(* what masks_dilatation reads of an image dataset: the selected band (for the sizes), the optional msk variable,
+   attrs["valid_pixels"] and attrs["no_data_mask"] *)
+Record dataset : Type := MkDs { d_im : arr Z; d_msk : option (arr Z); d_valid_pixels : Z; d_no_data_mask : Z }.
